@@ -31,6 +31,7 @@ type Opts struct {
 	FixedLayout        string // "" = random
 	LongNames          bool   // identifier lengths 1..40
 	UniqueMethodNames  bool   // method names unique in the whole project (default true unless Overloads)
+	FieldsFirst        bool   // fields are declared before the constructors and methods (receivers "declared at an earlier point")
 }
 
 type typeInfo struct {
@@ -190,8 +191,14 @@ func Generate(r *run.Rand, o Opts) *Project {
 		g.imports(ti)
 	}
 	// paths
-	for _, f := range p.Files {
+	usedPath := map[string]bool{}
+	for i, f := range p.Files {
 		f.RelPath = pathFor(p.Layout, f.Pkg, f.Type.Name+".java", false)
+		if usedPath[f.RelPath] {
+			// flat layout with the same simple name in two packages: keep both files
+			f.RelPath = fmt.Sprintf("m%d/%s", i, f.RelPath)
+		}
+		usedPath[f.RelPath] = true
 	}
 	if o.Excluded {
 		g.excluded(p)
@@ -421,6 +428,17 @@ func (g *genCtx) skeleton(ti *typeInfo) {
 			ms[i] = t.Members[j]
 		}
 		t.Members = ms
+	}
+	if o.FieldsFirst {
+		var fs, rest []Member
+		for _, m := range t.Members {
+			if _, ok := m.(*Field); ok {
+				fs = append(fs, m)
+			} else {
+				rest = append(rest, m)
+			}
+		}
+		t.Members = append(fs, rest...)
 	}
 }
 
